@@ -231,7 +231,9 @@ SPECS['C09'] = dict(
 
 SPECS['C14'] = dict(
     title='Array value semantics',
-    jobs=model_jobs('h_array', 'C14', (120000, 8000000), vg_cases=4000),
+    jobs=lambda tier, seed: (model_jobs('h_array', 'C14', (120000, 8000000), vg_cases=4000)(tier, seed)
+                             # arrays of more than 2^31 / 2^32 elements (2-4 GiB each; plain build, the oracle is the content)
+                             + [Job('h_array', 'mon', pseed(seed, 'C14', 30), frm, 1, ['mode=huge'], label='huge') for frm in (range(1) if tier == 'quick' else range(6))]),
     require={'any': {'histories': 5000, 'nontrivialCases': 2000, 'zeroLength': 500, 'trackedDtors': 50000}},
     evidence=lambda agg, samples, distinct, tier: cov(
         agg.get('histories', 0), distinct,
@@ -240,7 +242,7 @@ SPECS['C14'] = dict(
         '[]/front/back/iterators, destruction; element types int, double, unsigned char, lifetime-tracked class, std::string (no resize: not bitwise relocatable). '
         'After every operation size, every determinate element, iteration, storage independence and the lifetime registry are reconciled. '
         'non-trivial = class-type pointer+length construction, a copy of a non-empty array or a size-changing resize; distinct = distinct histories',
-        samples, observed=pick(agg, 'histories', 'ops', 'nontrivialCases', 'stateComparisons', 'zeroLength', 'trackedCtors', 'trackedDtors', 'trackedMoves'),
+        samples, observed=pick(agg, 'histories', 'ops', 'nontrivialCases', 'stateComparisons', 'zeroLength', 'arraysOver2G', 'hugeSkipped', 'trackedCtors', 'trackedDtors', 'trackedMoves'),
         operations=agg.get('opCount', {}), construction_lengths=agg.get('lengths', {})),
     assumptions=['elements of arithmetic type added by Array(n)/resize(n) are indeterminate by design and are not read',
                  'a moved-from Array is only destroyed or assigned to',
